@@ -285,10 +285,10 @@ FeatureYear == [
 NewFeatures(fi, fo) == ToSet(fo) \ ToSet(fi)
 JsVersionOK(fi, fo, v, except) ==
   v = 0 \/ \A f \in NewFeatures(fi, fo) \ except : f \in DOMAIN FeatureYear /\ FeatureYear[f] <= v
-(* Features whose ungated introduction is a known finding (known/C16.txt: `**` from Math.pow, shorthand
-   properties).  Generated documents do not contain the constructs and are judged on every feature; the
-   repository's own test inputs do, and are judged on all other features. *)
-KnownUngated == {"exp", "shorthandprop"}
+(* Features whose ungated introduction is a known finding: none at present (`**` from Math.pow and
+   shorthand properties were fixed by 50d13b0 / 77a0171).  A feature listed here would be disregarded
+   for the repository's own test inputs only; generated documents are judged on every feature. *)
+KnownUngated == {}
 \* the same sentence, read off an independent parser's edition switch: the least edition that
 \* accepts the output is not above max(v, least edition that accepts the input)
 JsEditionOK(pvi, pvo, v) == v = 0 \/ pvo <= Max2(pvi, Max2(v, 5))
